@@ -76,6 +76,8 @@ package car
 //@   ensures untouched_on_error [C06]: err != nil ==> h.DataOffset == old(h.DataOffset) && h.DataSize == old(h.DataSize) && h.IndexOffset == old(h.IndexOffset)
 
 //@ func NewBlockReader
+//@   call[carv1.ReadHeader#0] assert configured_header_limit [C09]: arg1 == options.MaxAllowedHeaderSize
+//@   call[carv1.ReadHeader#1] assert configured_header_limit [C09]: arg1 == options.MaxAllowedHeaderSize
 //@   requires origin [C14]: pos(r) == 0 && sbase(r) == 0
 //@   assume canonical_pragma: true
 //@   let hdr, herr := call[carv1.ReadHeader#0]
@@ -88,6 +90,7 @@ package car
 //@   ensures versions [C14]: err == nil ==> result0.Version == 1 || result0.Version == 2
 
 //@ func (*BlockReader).Next
+//@   call[util.ReadNode#0] assert configured_section_limit [C09]: arg1 == br.opts.ZeroLengthSectionAsEOF && arg2 == br.opts.MaxAllowedSectionSize
 //@   requires inv: br.offset == pos(br.r)
 //@   assume stream_bound: pos(br.r) >= 0 && pos(br.r) <= 4611686018427387904
 //@   modifies pos(br.r), br.offset
@@ -99,6 +102,7 @@ package car
 //@   ensures eof_clean [C02]: err == io.EOF ==> pos(br.r) == old(pos(br.r)) || (br.opts.ZeroLengthSectionAsEOF && pos(br.r) == old(pos(br.r)) + 1)
 
 //@ func (*BlockReader).SkipNext
+//@   call[util.LdReadSize#0] assert configured_section_limit [C09]: arg1 == br.opts.ZeroLengthSectionAsEOF && arg2 == br.opts.MaxAllowedSectionSize
 //@   requires inv: br.offset == pos(br.r)
 //@   assume stream_bound: pos(br.r) >= 0 && pos(br.r) <= 4611686018427387904
 //@   requires origin: sbase(br.r) == 0
@@ -117,6 +121,8 @@ package car
 //@   ensures skipped_block_is_there [C02]: err == nil ==> pos(br.r) <= lim(br.r) || pos(br.r) <= sbase(br.r) + send(br.r)
 
 //@ func LoadIndex
+//@   call[carv1.ReadHeader#0] assert configured_header_limit [C09]: arg1 == o.MaxAllowedHeaderSize
+//@   call[carv1.ReadHeader#1] assert configured_header_limit [C09]: arg1 == o.MaxAllowedHeaderSize
 //@   requires origin [C03]: pos(r) == sbase(r)
 //@   assume stream_bound: true
 //@   let pragma, perr := call[carv1.ReadHeader#0]
@@ -134,6 +140,8 @@ package car
 //@   call[Index.Load#0] assert args [C03]: ref(arg0) == ref(idx) && ref(arg1) == ref(records)
 
 //@ func ReplaceRootsInFile
+//@   call[carv1.ReadHeader#0] assert configured_header_limit [C09]: arg1 == options.MaxAllowedHeaderSize
+//@   call[carv1.ReadHeader#1] assert configured_header_limit [C09]: arg1 == options.MaxAllowedHeaderSize
 //@   let h0, e0 := call[carv1.ReadHeader#0]
 //@   let h1, e1 := call[carv1.ReadHeader#1]
 //@   let f0, fe0 := call[os.OpenFile#0]
@@ -232,3 +240,9 @@ package car
 //@   let wn0, werr := call[traversalCar.WriteTo#0]
 //@   call[traversalCar.WriteV2Header#0] assert second_header_after_rewind [C15]: werr == nil
 //@   call[File.Seek#0] assert rewind [C15]: arg1 == 0 && arg2 == 0
+
+//@ func (*Reader).Roots
+//@   call[carv1.ReadHeader#0] assert configured_header_limit [C09]: arg1 == r.opts.MaxAllowedHeaderSize
+
+//@ func ReadVersion
+//@   call[carv1.ReadHeader#0] assert configured_header_limit [C09]: arg1 == o.MaxAllowedHeaderSize
